@@ -1187,6 +1187,9 @@ where
                 State::Parsing => "Parsing",
                 State::Positioned => "Positioned",
                 State::Finished => "Finished",
+                // a state added later must not stop the monitoring build
+                #[allow(unreachable_patterns)]
+                _ => "Other",
             },
             buf_len: self.get_buf().len(),
             capacity: self.buf_reader.capacity(),
